@@ -224,7 +224,7 @@ fn list_tok(v: Option<Vec<String>>) -> String {
 }
 
 enum Built {
-    Pool(Box<dyn FnOnce(&Net, bool) -> (usize, bool)>),
+    Pool(Box<dyn FnOnce(&Net, bool) -> (String, bool)>),
     ErrBoth,
     ErrRedis,
 }
@@ -232,9 +232,19 @@ enum Built {
 /// after a pool was built: `get()` once and report (max_size, get succeeded)
 macro_rules! probe {
     ($pool:expr) => {{
+        let p = $pool;
+        let d = format!("{:?}", p);
+        probe!(p, d)
+    }};
+    ($pool:expr, $dbg:expr) => {{
         let pool = $pool;
+        let dbg: String = $dbg;
         Box::new(move |net: &Net, connect: bool| {
-            let max = pool.status().max_size;
+            // what reached the built pool: max_size and the wait timeout have getters, the queue
+            // mode shows in the Debug output
+            let qm = if dbg.contains("queue_mode: Lifo") { "lifo" } else if dbg.contains("queue_mode: Fifo") { "fifo" } else { "unobserved" };
+            let wait = pool.timeouts().wait.map(|d| d.as_millis().to_string()).unwrap_or("-".into());
+            let max = format!("max={} qm={qm} wait={wait}", pool.status().max_size);
             let ok = connect && net.rt.block_on(async {
                 let r = tokio::time::timeout(Duration::from_secs(5), pool.get()).await;
                 // let the listeners note what is still in flight
@@ -242,7 +252,7 @@ macro_rules! probe {
                 matches!(r, Ok(Ok(_)))
             });
             (max, ok)
-        }) as Box<dyn FnOnce(&Net, bool) -> (usize, bool)>
+        }) as Box<dyn FnOnce(&Net, bool) -> (String, bool)>
     }};
 }
 
@@ -266,7 +276,11 @@ fn cfg_case(rng: &mut Rng, net: &Net) {
         let n = count(rng);
         (0..n).map(|_| gen_conn(rng, net)).collect()
     });
-    let pool_cfg = rng.chance(50).then(|| PoolConfig::new(1 + rng.below(40)));
+    let pool_cfg = rng.chance(50).then(|| PoolConfig {
+        max_size: 1 + rng.below(40),
+        timeouts: Timeouts { wait: rng.chance(40).then(|| Duration::from_millis(1000 + rng.below(9000) as u64)), create: None, recycle: None },
+        queue_mode: if rng.chance(50) { QueueMode::Lifo } else { QueueMode::Fifo },
+    });
     let dflt = PoolConfig::default().max_size;
     let url_strings: Option<Vec<String>> = urls.as_ref().map(|v| v.iter().map(|u| url_text(u).to_string()).collect());
     let conn_infos: Option<Vec<ConnectionInfo>> = conns.as_ref().map(|v| v.iter().map(|c| c.1.clone()).collect());
@@ -298,13 +312,16 @@ fn cfg_case(rng: &mut Rng, net: &Net) {
         .unwrap_or(true);
 
     println!(
-        "rdin cfg {flavour} u={} c={} au={} ac={} obs={} pool={} dflt={dflt}",
+        "rdin cfg {flavour} u={} c={} au={} ac={} obs={} pool={} qm={} qmobs={} wait={} dflt={dflt}",
         list_tok(urls.as_ref().map(|v| v.iter().map(|u| url_tok(u, net)).collect())),
         list_tok(conns.as_ref().map(|v| v.iter().map(|c| c.0.to_string()).collect())),
         au as u8,
         ac as u8,
         net.default_ok as u8,
         pool_cfg.map(|p| p.max_size.to_string()).unwrap_or("-".into()),
+        pool_cfg.map(|p| mode_tok(p.queue_mode)).unwrap_or("-"),
+        (flavour != "cluster") as u8,
+        pool_cfg.and_then(|p| p.timeouts.wait).map(|d| d.as_millis().to_string()).unwrap_or("-".into()),
     );
 
     let built = catch_unwind(AssertUnwindSafe(|| -> Built {
@@ -331,7 +348,8 @@ fn cfg_case(rng: &mut Rng, net: &Net) {
                     read_from_replicas: false,
                 };
                 match cfg.create_pool(Some(Runtime::Tokio1)) {
-                    Ok(p) => Built::Pool(probe!(p)),
+                    // the cluster pool has no Debug impl (its connection type has none)
+                    Ok(p) => Built::Pool(probe!(p, String::new())),
                     Err(cluster::CreatePoolError::Config(cluster::ConfigError::UrlAndConnectionSpecified)) => {
                         Built::ErrBoth
                     }
@@ -372,7 +390,7 @@ fn cfg_case(rng: &mut Rng, net: &Net) {
             } else {
                 format!("[{}]", seen.into_iter().collect::<Vec<_>>().join(","))
             };
-            println!("rdout ok servers={servers} max={max}");
+            println!("rdout ok servers={servers} {max}");
             if got {
                 println!("rdx get-succeeded");
             }
@@ -1206,8 +1224,6 @@ pub mod resp {
     }
 
     fn serve(mut s: TcpStream, idx: usize, state: Arc<Mutex<ServerState>>) {
-        // an UNWATCH whose reply is decided by the PING that follows it in the pipeline
-        let mut unwatch_pending = false;
         while let Some(cmd) = read_command(&mut s) {
             let name = cmd[0].to_uppercase();
             let mut st = state.lock().unwrap();
@@ -1219,8 +1235,13 @@ pub mod resp {
                 }
                 "UNWATCH" => {
                     st.watched[idx] = false;
-                    unwatch_pending = true;
-                    None
+                    // answered at once (a client need not pipeline the PING behind it); whether
+                    // it fails is decided by the answer scripted for the recycle it belongs to
+                    if st.replies.front() == Some(&Reply::UnwatchError) {
+                        Some("-ERR scripted unwatch failure\r\n".into())
+                    } else {
+                        Some("+OK\r\n".into())
+                    }
                 }
                 "PING" => {
                     let arg = cmd.get(1).cloned().unwrap_or_default();
@@ -1231,18 +1252,13 @@ pub mod resp {
                         r => r,
                     };
                     st.last_ping = Some(arg.clone());
-                    let unwatch = if std::mem::take(&mut unwatch_pending) {
-                        if r == Reply::UnwatchError { "-ERR scripted unwatch failure\r\n" } else { "+OK\r\n" }
-                    } else {
-                        ""
-                    };
                     match r {
                         Reply::Echo(v) => {
                             let v = v.unwrap_or(arg);
-                            Some(format!("{unwatch}${}\r\n{v}\r\n", v.len()))
+                            Some(format!("${}\r\n{v}\r\n", v.len()))
                         }
-                        Reply::UnwatchError => Some(format!("{unwatch}${}\r\n{arg}\r\n", arg.len())),
-                        Reply::Error => Some(format!("{unwatch}-ERR scripted failure\r\n")),
+                        Reply::UnwatchError => Some(format!("${}\r\n{arg}\r\n", arg.len())),
+                        Reply::Error => Some("-ERR scripted failure\r\n".to_string()),
                         Reply::Drop => {
                             drop(st);
                             let _ = s.shutdown(std::net::Shutdown::Both);
